@@ -18,6 +18,9 @@ vm_compute against this list, so a new iteration over a hash map in the sources 
 obligation of C20 until it is looked at.
 
 Generated:
+  farewell_unprocessed_prefix / _suffix / _sorted   the 30000 text and whether the call results are rendered sorted
+  first_culprit_sorted : list (string * bool)        DataVerifier::verify, CidStore::verify, CidStore::verify_raw_value
+                                                     visit their HashMap in key order (so the named culprit is stable)
   det_sites : list (string * string * string * N)
   det_hash_names : list string      the identifiers the scan treated as hash containers (for the reader)"""
 import os
@@ -149,6 +152,47 @@ def farewell_message():
             "Definition farewell_unprocessed_sorted : bool := %s." % ("true" if is_sorted else "false")]
 
 
+CID_STORE = "crates/air-lib/interpreter-data/src/cid_store.rs"
+VERIFICATION = "crates/air-lib/interpreter-data/src/interpreter_data/verification.rs"
+
+
+def fn_body(src, name, rel):
+    m = re.search(r"\bfn\s+" + re.escape(name) + r"\b[^{;]*\{", src)
+    if not m:
+        raise TranslationError("function %s not found in %s" % (name, rel))
+    depth, j = 1, m.end()
+    while j < len(src) and depth > 0:
+        depth += {"{": 1, "}": -1}.get(src[j], 0)
+        j += 1
+    return re.sub(r"\s+", " ", src[m.end():j - 1]).strip()
+
+
+def first_culprit():
+    """the three verification loops whose error names a culprit: do they visit their HashMap in KEY order?"""
+    vs = strip_comments(gen_model.read(VERIFICATION))
+    cs = strip_comments(gen_model.read(CID_STORE))
+    verify = fn_body(vs, "verify", VERIFICATION)
+    a = bool(re.search(r"let mut peers: Vec<_> = self\.grouped_cids\.iter\(\)\.collect\(\); peers\.sort_unstable_by\(\|a, b\| a\.0\.cmp\(b\.0\)\); "
+                       r"for \(_, peer_info\) in peers \{", verify)) and "self.grouped_cids.values()" not in verify
+    if not a and "for peer_info in self.grouped_cids.values()" not in verify:
+        raise TranslationError("DataVerifier::verify: loop shape not recognised")
+    out = [("DataVerifier::verify", a)]
+    for fn, call in (("verify", "verify_value(cid, value)?;"), ("verify_raw_value", "verify_raw_value(cid, value.as_inner())?;")):
+        # CidStore has both functions; `verify` of the store is the one whose body calls verify_value
+        bodies = [re.sub(r"\s+", " ", b) for b in re.findall(r"pub fn " + fn + r"\(&self\) -> Result<\(\), CidStoreVerificationError> \{(.*?)\n    \}", cs, flags=re.S)]
+        bodies = [b for b in bodies if call in b]
+        if len(bodies) != 1:
+            raise TranslationError("CidStore::%s not found (or not unique)" % fn)
+        b = bodies[0]
+        srt = ("let mut entries: Vec<_> = self.0.iter().collect(); entries.sort_unstable_by_key(|(cid, _)| cid.get_inner()); "
+               "for (cid, value) in entries { " + call + " }") in b and "in &self.0" not in b
+        if not srt and ("for (cid, value) in &self.0 { " + call + " }") not in b:
+            raise TranslationError("CidStore::%s: loop shape not recognised" % fn)
+        out.append(("CidStore::" + fn, srt))
+    return ["Definition first_culprit_sorted : list (string * bool) := %s." %
+            coq_list(["(%s, %s)" % (coq_str(n), "true" if v else "false") for n, v in out])]
+
+
 def generate():
     files = rust_files()
     texts = {}
@@ -262,6 +306,7 @@ def generate():
 
     out = ["(* ---- tools/genx_det.py (C20): catalogue of nondeterminism sources ---- *)"]
     out += farewell_message()
+    out += first_culprit()
     out.append("Definition det_sites : list (string * string * string * N) := [")
     out.append(";\n".join("  (%s, %s, %s, %d%%N)" % (coq_str(a), coq_str(b), coq_str(c), d) for a, b, c, d in sites))
     out.append("].")
